@@ -95,19 +95,22 @@ Fixpoint walk (fuel : nat) (t : ptree) (parent : nat) (g : graph) : option (nat 
 
 (* __parse on the children of 'begin' (brace-free input): [deriv] | [branch; deriv] | [deriv; ' '; TYPE] |
    [branch; deriv; ' '; TYPE]; the root's written configuration is appended to its name by the factory *)
-Definition parse_begin (fuel : nat) (kids : list ptree) : option graph :=
+Definition parse_begin_with (W : nat -> ptree -> nat -> graph -> option (nat * graph))
+           (fuel : nat) (kids : list ptree) : option graph :=
   let g0 := mkGraph [] [] in
   match kids with
   | [PRes d] => Some (snd (add_node g0 d))
   | [b; PRes d] =>
       let (id, g1) := add_node g0 d in
-      match walk fuel b id g1 with Some (_, g2) => Some g2 | None => None end
+      match W fuel b id g1 with Some (_, g2) => Some g2 | None => None end
   | [PRes d; PTok _; PTok cfg] => Some (snd (add_node g0 (d ++ cfg)))
   | [b; PRes d; PTok _; PTok cfg] =>
       let (id, g1) := add_node g0 (d ++ cfg) in
-      match walk fuel b id g1 with Some (_, g2) => Some g2 | None => None end
+      match W fuel b id g1 with Some (_, g2) => Some g2 | None => None end
   | _ => None
   end.
+
+Definition parse_begin := parse_begin_with walk.
 
 (* residues written in a parse tree, left to right *)
 Fixpoint residues (t : ptree) : list string :=
